@@ -609,3 +609,282 @@ Proof.
   assert (H4 : (Z.of_nat (length (bc_list_l c)) <= 1000000)%Z) by (vm_compute; discriminate).
   exact (conj H0 (conj H1 (conj H2 (conj H3 (conj H4 (C03_reread_list_closed c 41%Z H0 H1 H2 ltac:(lia) H3 H4)))))).
 Qed.
+
+(* ================================================================================================== *)
+(* added from Properties/C03_add2.v (2026-10-01)                                              *)
+(* ================================================================================================== *)
+(* C03 (addition)  The fixed point at the level of DictReader.read: read (root + included file), write, read again. *)
+From Coq Require Import String.   (* string literals of the examples; imported first so the list names win *)
+From Coq Require Import NArith ZArith List Bool Lia.
+From DictIO Require Import Chars Str Value Scalar KeyPath SDict Layout Lexer TokParser Reader Paths TreeSpec NativeSpec LayoutSpec E2ESpec MiscSpec.
+From DictIO Require Import E2EFullProofs RereadPlain RereadTree RereadProofs RereadFix AppendSeq AppendCommented.
+From DictIO Require Import RereadIncRead RereadIncWrite RereadIncProofs RereadIncFix RereadRead.
+Import ListNotations.
+Open Scope N_scope.
+
+(* C03_reread_inc_fixed_point_partial and C12_includes_survive_partial are about NativeParser.parse_string on ONE text:
+   the included files are never merged.  Here the reader is DictReader.read with includes and comments on
+   ( read_plain fs root true true c : parse the root, merge the included files, final self-merge), the writer is
+   NativeFormatter.to_string, and the second read finds the included file still in place.
+
+   WANTED (full statement): for every file system in which the first read succeeds, with s1 = the state read, fs' = fs with
+   the root overwritten by the text written for s1, the second read returns a state s2 with the ordinary data and the
+   comments of s1 and the same included files, and writing s2 reproduces the text written for s1 byte for byte.
+   PROVED (partial): this, for a root whose parse A is in the class rereadable_inc (comments at any dict level, include
+   entries at top level: C12_add.v) with ONE include entry, the included file being the writer's text of a plain dict db
+   of the writer domain (no comments, no includes of its own: to_string_plain db).
+     s1 = merged_state_inc A m : A with m = db as it is read back merged FIRST-WINS into its data (keys of the root win,
+          dicts present on both sides are merged recursively, new keys go behind the entries of their level); the
+          comment and include entries at their places; the tables of A.  The merged keys are ordinary entries of s1.
+     The writer emits the directive AND the merged keys; the second read merges the included file into a state that
+     holds its keys already: s2 = number_inc (dir_of root) c' (written_doc_inc s1) [n], the parse of the written root
+     ALONE (C03_reread_inc_partial); it is in the class again, has the canonical document of s1 with the leaves read
+     back, the same include name and the same path.
+     Bytes: the second cycle writes the bytes of the first as soon as the leaves of the ROOT's parse are stable
+     (cwv (written_doc_inc A) = written_doc_inc A : every ordinary leaf is read back from its written form as itself;
+     so for every root the library wrote: C03_reread_inc_fixed_point_partial).  This is a hypothesis of convenience:
+     no parse with an unstable leaf was found (the model carries a float as its source literal, so the library's
+     first-cycle normalisation 1.50 -> 1.5 is outside the model).
+   Side conditions and why:
+     merge_safe (sd_data A) m, merge_safe (cwv (written_doc_inc s1)) m : no entry that m addresses at top level is
+        self-named (value = key, key of the form of a placeholder, or value referring to $key): SDict.merge REPLACES
+        such an entry (C16_self_named_finding);
+     str_eqb pb (norm_path root) = false : the include does not name the root itself;
+     (-1 <= cA) : the counter after the parse of the root; always true for c >= -1, there is no general lemma for it;
+     inc_ids A = [i] and the path of the table entry = path_join (dir_of root) n : the ONE table entry belongs to the ONE
+        include entry of the data and its path is the one the parser computes (true of every parse; not proved in
+        general, computed on the example);
+     the six-digit bounds on comments, quoted literals (those of the root plus those of db). *)
+Theorem C03_read_write_read_partial : forall fs root c c' text A cA i d n db,
+  fs_lookup (norm_path root) fs = Some (FNative text) ->
+  parse_string true (dir_of root) c text = Ok (mkParsed A cA) -> (-1 <= cA)%Z -> (-1 <= c')%Z ->
+  rereadable_inc A = true ->
+  sd_inc A = [(i, (d, n, path_join (dir_of root) n))] -> inc_ids A = [i] ->
+  let pb := norm_path (path_join (dir_of root) n) in
+  str_eqb pb (norm_path root) = false ->
+  fs_lookup pb fs = Some (FNative (to_string_plain db)) ->
+  wdom db = true ->
+  let m := reread_plain db in
+  merge_safe (sd_data A) m = true ->
+  let s1 := merged_state_inc A m in
+  merge_safe (cwv (written_doc_inc s1)) m = true ->
+  (Z.of_nat (length (sd_lc A)) < 1000000)%Z ->
+  (Z.of_nat (length (lc_list (written_doc_inc A))) < 1000000)%Z -> (Z.of_nat (length (bc_list (written_doc_inc A))) <= 1000000)%Z ->
+  (Z.of_nat (length (lit_list (written_doc_inc A)) + nq (Dict db)) <= 1000000)%Z ->
+  let fs' := fs_put (norm_path root) (FNative (to_string_sd s1)) fs in
+  let s2 := number_inc (dir_of root) c' (written_doc_inc s1) [n] in
+  exists c1 c2,
+    read_plain fs root true true c = Ok (s1, c1) /\ rereadable_inc s1 = true /\
+    read_plain fs' root true true c' = Ok (s2, c2) /\ rereadable_inc s2 = true /\
+    cstrip (Dict (sd_data (strip_inc s1))) = Dict (merge_spec (kvs_of (cstrip (Dict (sd_data (strip_inc A))))) m) /\
+    cstrip (Dict (sd_data (strip_inc s2))) = map_leaves written_value (cstrip (Dict (sd_data (strip_inc s1)))) /\
+    written_doc_inc s2 = cwv (written_doc_inc s1) /\
+    inc_names s1 = [n] /\ inc_names s2 = [n] /\
+    map (fun e => snd (snd e)) (sd_inc s2) = [path_join (dir_of root) n] /\
+    (cwv (written_doc_inc A) = written_doc_inc A ->
+     cstrip (Dict (sd_data (strip_inc s2))) = cstrip (Dict (sd_data (strip_inc s1))) /\
+     written_doc_inc s2 = written_doc_inc s1 /\ to_string_sd s2 = to_string_sd s1).
+Proof. exact read_write_read. Qed.
+Print Assumptions C03_read_write_read_partial.
+
+(* the two-file instance: the root holds a line comment, the directive, a key, a dict with a block comment and a quoted
+   string, and a dict z that the included file has too (merged recursively: the root's entry v first, then w); the
+   included file is the writer's text of { y 2; z { w '0012' } } -- the string 0012 is read back as the int 12 *)
+Definition ex03r_root : str := of_string "/d/root.dict".
+Definition ex03r_text : str := of_string "// hello
+#include 'b.dict'
+x 1;
+sub { /* inner */ q 'a b'; }
+z { v 7; }
+".
+Definition ex03r_db : list (key * tree) :=
+  [(KS (of_string "y"), Leaf (SInt 2)); (KS (of_string "z"), Dict [(KS (of_string "w"), Leaf (SStr (of_string "0012")))])].
+Definition ex03r_fs : fsys := [(ex03r_root, FNative ex03r_text); (of_string "/d/b.dict", FNative (to_string_plain ex03r_db))].
+Definition ex03r_A : sdict :=
+  match parse_string true (dir_of ex03r_root) 41 ex03r_text with Ok p => pr_sd p | Raise _ => sd_empty end.
+
+Example C03_read_write_read_partial_nonvacuous :
+  let m := reread_plain ex03r_db in let s1 := merged_state_inc ex03r_A m in
+  let fs' := fs_put (norm_path ex03r_root) (FNative (to_string_sd s1)) ex03r_fs in
+  let s2 := number_inc (of_string "/d") 44 (written_doc_inc s1) [of_string "b.dict"] in
+  to_string_plain ex03r_db = of_string
+"y                             2;
+z
+{
+    w                         0012;
+}
+" /\
+  parse_string true (dir_of ex03r_root) 41 ex03r_text = Ok (mkParsed ex03r_A 44) /\ rereadable_inc ex03r_A = true /\
+  sd_inc ex03r_A = [(43, (of_string "#include 'b.dict'", of_string "b.dict", of_string "/d/b.dict"))] /\
+  (exists c1 c2,
+    read_plain ex03r_fs ex03r_root true true 41 = Ok (s1, c1) /\ rereadable_inc s1 = true /\
+    read_plain fs' ex03r_root true true 44 = Ok (s2, c2) /\ rereadable_inc s2 = true /\
+    cstrip (Dict (sd_data (strip_inc s2))) = cstrip (Dict (sd_data (strip_inc s1))) /\
+    inc_names s1 = [of_string "b.dict"] /\ inc_names s2 = [of_string "b.dict"] /\
+    map (fun e => snd (snd e)) (sd_inc s2) = [of_string "/d/b.dict"] /\
+    to_string_sd s2 = to_string_sd s1) /\
+  (* the first state: the include entry, the comment entries, the root's keys, then the merged keys; z merged *)
+  sd_data s1 =
+    [ (KS (of_string "LINECOMMENT000042"), Leaf (SStr (of_string "LINECOMMENT000042")));
+      (KS (of_string "INCLUDE000043"), Leaf (SStr (of_string "INCLUDE000043")));
+      (KS (of_string "x"), Leaf (SInt 1));
+      (KS (of_string "sub"), Dict [ (KS (of_string "BLOCKCOMMENT000000"), Leaf (SStr (of_string "BLOCKCOMMENT000000")));
+                                    (KS (of_string "q"), Leaf (SStr (of_string "a b"))) ]);
+      (KS (of_string "z"), Dict [ (KS (of_string "v"), Leaf (SInt 7)); (KS (of_string "w"), Leaf (SInt 12)) ]);
+      (KS (of_string "y"), Leaf (SInt 2)) ] /\
+  (* the text written in both cycles: the directive AND the merged keys *)
+  to_string_sd s1 = native_header ++ of_string
+"#include b.dict
+// hello
+x                             1;
+sub
+{
+    /* inner */
+    q                         'a b';
+}
+z
+{
+    v                         7;
+    w                         12;
+}
+y                             2;
+" /\
+  (* the ordinary data of both states *)
+  cstrip (Dict (sd_data (strip_inc s2))) =
+    Dict [ (KS (of_string "x"), Leaf (SInt 1)); (KS (of_string "sub"), Dict [(KS (of_string "q"), Leaf (SStr (of_string "a b")))]);
+           (KS (of_string "z"), Dict [ (KS (of_string "v"), Leaf (SInt 7)); (KS (of_string "w"), Leaf (SInt 12)) ]);
+           (KS (of_string "y"), Leaf (SInt 2)) ].
+Proof.
+  intros m s1 fs' s2.
+  assert (Hp : parse_string true (dir_of ex03r_root) 41 ex03r_text = Ok (mkParsed ex03r_A 44)) by (vm_compute; reflexivity).
+  assert (Hf : fs_lookup (norm_path ex03r_root) ex03r_fs = Some (FNative ex03r_text)) by (vm_compute; reflexivity).
+  assert (Hr : rereadable_inc ex03r_A = true) by (vm_compute; reflexivity).
+  assert (Hi : sd_inc ex03r_A = [(43, (of_string "#include 'b.dict'", of_string "b.dict", path_join (dir_of ex03r_root) (of_string "b.dict")))])
+    by (vm_compute; reflexivity).
+  assert (Hids : inc_ids ex03r_A = [43]) by (vm_compute; reflexivity).
+  assert (Hne : str_eqb (norm_path (path_join (dir_of ex03r_root) (of_string "b.dict"))) (norm_path ex03r_root) = false) by (vm_compute; reflexivity).
+  assert (Hfb : fs_lookup (norm_path (path_join (dir_of ex03r_root) (of_string "b.dict"))) ex03r_fs = Some (FNative (to_string_plain ex03r_db)))
+    by (vm_compute; reflexivity).
+  assert (Hdb : wdom ex03r_db = true) by (vm_compute; reflexivity).
+  assert (Hs1 : merge_safe (sd_data ex03r_A) (reread_plain ex03r_db) = true) by (vm_compute; reflexivity).
+  assert (Hs2 : merge_safe (cwv (written_doc_inc (merged_state_inc ex03r_A (reread_plain ex03r_db)))) (reread_plain ex03r_db) = true)
+    by (vm_compute; reflexivity).
+  assert (Bl : (Z.of_nat (length (sd_lc ex03r_A)) < 1000000)%Z) by (vm_compute; reflexivity).
+  assert (B1 : (Z.of_nat (length (lc_list (written_doc_inc ex03r_A))) < 1000000)%Z) by (vm_compute; reflexivity).
+  assert (B2 : (Z.of_nat (length (bc_list (written_doc_inc ex03r_A))) <= 1000000)%Z) by (vm_compute; discriminate).
+  assert (B3 : (Z.of_nat (length (lit_list (written_doc_inc ex03r_A)) + nq (Dict ex03r_db)) <= 1000000)%Z) by (vm_compute; discriminate).
+  assert (Hst : cwv (written_doc_inc ex03r_A) = written_doc_inc ex03r_A) by (vm_compute; reflexivity).
+  destruct (C03_read_write_read_partial ex03r_fs ex03r_root 41%Z 44%Z ex03r_text ex03r_A 44%Z 43 _ (of_string "b.dict") ex03r_db
+              Hf Hp ltac:(lia) ltac:(lia) Hr Hi Hids Hne Hfb Hdb Hs1 Hs2 Bl B1 B2 B3)
+    as (c1 & c2 & R1 & R2 & R3 & R4 & _ & _ & _ & R8 & R9 & R10 & R11).
+  destruct (R11 Hst) as (S1 & _ & S3).
+  assert (Ed : dir_of ex03r_root = of_string "/d") by (vm_compute; reflexivity). rewrite Ed in R3, R4, R9, R10, S1, S3.
+  assert (Epj : path_join (of_string "/d") (of_string "b.dict") = of_string "/d/b.dict") by (vm_compute; reflexivity). rewrite Epj in R10.
+  split; [vm_compute; reflexivity|]. split; [exact Hp|]. split; [exact Hr|]. split; [vm_compute; reflexivity|].
+  split; [exists c1, c2; exact (conj R1 (conj R2 (conj R3 (conj R4 (conj S1 (conj R8 (conj R9 (conj R10 S3))))))))|].
+  split; [vm_compute; reflexivity|]. split; [vm_compute; reflexivity|]. vm_compute. reflexivity.
+Qed.
+
+(* ---- the data of the second read, from conditions on the STATE that is written ----------------------------------- *)
+(* WANTED (C03_read_write_read_data): for ANY file system in which the first read succeeded with a state s1 of the class,
+   the second read's ordinary data are those of s1.
+   PROVED (partial): no reference to the first read at all -- s1 is ANY state of the class rereadable_inc with ONE include
+   entry (name n); the file the name points to (in the file system fs' of the second read) is the writer's text of a plain
+   dict db of the writer domain; the canonical document of s1 holds m = db as it is read back ALREADY
+   ( merge_spec (written_doc_inc s1) m = written_doc_inc s1 : a decidable condition on s1 and db; it holds for every
+   s1 = merged_state_inc A m, by idempotence of the merge).  Then the second read succeeds, its state is in the class,
+   its ordinary data are those of s1 with every leaf as the classifier reads its written form, its canonical document
+   is that of s1 with the leaves read back, it has the same include name and the path of that name.
+   Missing for the full statement: several include entries, included files with comments / includes of their own / JSON
+   included files (their placeholder ids differ between the two reads; the merged comment entries are de-duplicated
+   by the clean-up by TEXT). *)
+Theorem C03_read_write_read_data_partial : forall fs' root c' s1 n db,
+  rereadable_inc s1 = true -> (Z.of_nat (length (sd_lc s1)) < 1000000)%Z -> (-1 <= c')%Z ->
+  (Z.of_nat (length (lc_list (written_doc_inc s1))) < 1000000)%Z -> (Z.of_nat (length (bc_list (written_doc_inc s1))) <= 1000000)%Z ->
+  (Z.of_nat (length (lit_list (written_doc_inc s1))) <= 1000000)%Z ->
+  inc_names s1 = [n] ->
+  wdom db = true -> (Z.of_nat (nq (Dict db)) <= 1000000)%Z ->
+  let m := reread_plain db in
+  merge_spec (written_doc_inc s1) m = written_doc_inc s1 ->
+  merge_safe (cwv (written_doc_inc s1)) m = true ->
+  fs_lookup (norm_path root) fs' = Some (FNative (to_string_sd s1)) ->
+  fs_lookup (norm_path (path_join (dir_of root) n)) fs' = Some (FNative (to_string_plain db)) ->
+  exists s2 c2, read_plain fs' root true true c' = Ok (s2, c2) /\ rereadable_inc s2 = true /\
+    cstrip (Dict (sd_data (strip_inc s2))) = map_leaves written_value (cstrip (Dict (sd_data (strip_inc s1)))) /\
+    written_doc_inc s2 = cwv (written_doc_inc s1) /\ inc_names s2 = inc_names s1 /\
+    map (fun e => snd (snd e)) (sd_inc s2) = [path_join (dir_of root) n].
+Proof. exact second_read_data. Qed.
+Print Assumptions C03_read_write_read_data_partial.
+
+(* a state that no read produced: an include entry between two keys, a line comment, the key z that the included file has
+   too, the string 0012 (not yet re-typed: the leaves of this state are NOT stable, the data of the second read are the
+   re-typed ones) *)
+Definition ex03r_ph (w : str) (i : N) : key * tree := (KS (placeholder w i), Leaf (SStr (placeholder w i))).
+Definition ex03r_s : sdict :=
+  mkSD [ (KS (of_string "a"), Leaf (SStr (of_string "0012"))); ex03r_ph w_INCLUDE 7; ex03r_ph w_LINECOMMENT 3;
+         (KS (of_string "z"), Dict [(KS (of_string "v"), Leaf (SInt 7)); (KS (of_string "w"), Leaf (SInt 99))]);
+         (KS (of_string "y"), Leaf (SStr (of_string "kept"))) ]
+       [(3, of_string "// three")] []
+       [(7, (of_string "#include 'b.dict'", of_string "b.dict", of_string "/elsewhere/b.dict"))] [].
+
+Example C03_read_write_read_data_partial_nonvacuous :
+  let fs' := [(of_string "/d/root.dict", FNative (to_string_sd ex03r_s)); (of_string "/d/b.dict", FNative (to_string_plain ex03r_db))] in
+  rereadable_inc ex03r_s = true /\ inc_names ex03r_s = [of_string "b.dict"] /\ wdom ex03r_db = true /\
+  merge_spec (written_doc_inc ex03r_s) (reread_plain ex03r_db) = written_doc_inc ex03r_s /\
+  exists s2 c2, read_plain fs' ex03r_root true true 5 = Ok (s2, c2) /\ rereadable_inc s2 = true /\
+    cstrip (Dict (sd_data (strip_inc s2))) =
+      Dict [ (KS (of_string "a"), Leaf (SInt 12));
+             (KS (of_string "z"), Dict [(KS (of_string "v"), Leaf (SInt 7)); (KS (of_string "w"), Leaf (SInt 99))]);
+             (KS (of_string "y"), Leaf (SStr (of_string "kept"))) ] /\
+    inc_names s2 = [of_string "b.dict"] /\ map (fun e => snd (snd e)) (sd_inc s2) = [of_string "/d/b.dict"].
+Proof.
+  intros fs'.
+  assert (Hr : rereadable_inc ex03r_s = true) by (vm_compute; reflexivity).
+  assert (Hn : inc_names ex03r_s = [of_string "b.dict"]) by (vm_compute; reflexivity).
+  assert (Hdb : wdom ex03r_db = true) by (vm_compute; reflexivity).
+  assert (Habs : merge_spec (written_doc_inc ex03r_s) (reread_plain ex03r_db) = written_doc_inc ex03r_s) by (vm_compute; reflexivity).
+  assert (Hs2 : merge_safe (cwv (written_doc_inc ex03r_s)) (reread_plain ex03r_db) = true) by (vm_compute; reflexivity).
+  assert (Bl : (Z.of_nat (length (sd_lc ex03r_s)) < 1000000)%Z) by (vm_compute; reflexivity).
+  assert (B1 : (Z.of_nat (length (lc_list (written_doc_inc ex03r_s))) < 1000000)%Z) by (vm_compute; reflexivity).
+  assert (B2 : (Z.of_nat (length (bc_list (written_doc_inc ex03r_s))) <= 1000000)%Z) by (vm_compute; discriminate).
+  assert (B3 : (Z.of_nat (length (lit_list (written_doc_inc ex03r_s))) <= 1000000)%Z) by (vm_compute; discriminate).
+  assert (Bq : (Z.of_nat (nq (Dict ex03r_db)) <= 1000000)%Z) by (vm_compute; discriminate).
+  assert (Hf : fs_lookup (norm_path ex03r_root) fs' = Some (FNative (to_string_sd ex03r_s))) by (vm_compute; reflexivity).
+  assert (Hfb : fs_lookup (norm_path (path_join (dir_of ex03r_root) (of_string "b.dict"))) fs' = Some (FNative (to_string_plain ex03r_db)))
+    by (vm_compute; reflexivity).
+  destruct (C03_read_write_read_data_partial fs' ex03r_root 5%Z ex03r_s (of_string "b.dict") ex03r_db Hr Bl ltac:(lia) B1 B2 B3 Hn Hdb Bq Habs Hs2 Hf Hfb)
+    as (s2 & c2 & R1 & R2 & R3 & _ & R5 & R6).
+  split; [exact Hr|]. split; [exact Hn|]. split; [exact Hdb|]. split; [exact Habs|].
+  exists s2, c2. split; [exact R1|]. split; [exact R2|]. split; [|split].
+  - rewrite R3. vm_compute. reflexivity.
+  - rewrite R5. exact Hn.
+  - rewrite R6. vm_compute. reflexivity.
+Qed.
+
+(* why merge_safe is asked (checked on the library: DictReader.read of a root  #include 'b.dict' / AB000001 AB000001; / k k;
+   with b.dict = AB000001 5; k 6;  returns AB000001 = 5 and k = 'k'): a top-level entry of the ROOT whose value spells its
+   own key, the key having the form of a placeholder (upper case letters + six digits), is REPLACED by the value of the
+   included file -- the including file does not win for this key, so the first state is not the first-wins merge.  (The
+   round trip itself is still a fixed point on this instance: the second read keeps 5.) *)
+Definition ex03r_fn_root : str := of_string "/d/root.dict".
+Definition ex03r_fn_text : str := of_string "#include 'b.dict'
+AB000001 AB000001;
+k k;
+".
+Definition ex03r_fn_db : list (key * tree) := [(KS (of_string "AB000001"), Leaf (SInt 5)); (KS (of_string "k"), Leaf (SInt 6))].
+Definition ex03r_fn_fs : fsys := [(ex03r_fn_root, FNative ex03r_fn_text); (of_string "/d/b.dict", FNative (to_string_plain ex03r_fn_db))].
+Definition ex03r_fn_A : sdict :=
+  match parse_string true (dir_of ex03r_fn_root) (-1) ex03r_fn_text with Ok p => pr_sd p | Raise _ => sd_empty end.
+Definition ex03r_fn_s1 : sdict :=
+  match read_plain ex03r_fn_fs ex03r_fn_root true true (-1) with Ok (s, _) => s | Raise _ => sd_empty end.
+
+Example C03_read_include_self_named_finding :
+  parse_string true (dir_of ex03r_fn_root) (-1) ex03r_fn_text = Ok (mkParsed ex03r_fn_A 0) /\
+  rereadable_inc ex03r_fn_A = true /\ wdom ex03r_fn_db = true /\
+  merge_safe (sd_data ex03r_fn_A) (reread_plain ex03r_fn_db) = false /\
+  read_plain ex03r_fn_fs ex03r_fn_root true true (-1) = Ok (ex03r_fn_s1, 0%Z) /\
+  alookup (KS (of_string "AB000001")) (sd_data ex03r_fn_A) = Some (Leaf (SStr (of_string "AB000001"))) /\
+  alookup (KS (of_string "AB000001")) (sd_data ex03r_fn_s1) = Some (Leaf (SInt 5)) /\
+  alookup (KS (of_string "AB000001")) (sd_data (merged_state_inc ex03r_fn_A (reread_plain ex03r_fn_db))) = Some (Leaf (SStr (of_string "AB000001"))) /\
+  alookup (KS (of_string "k")) (sd_data ex03r_fn_s1) = Some (Leaf (SStr (of_string "k"))).
+Proof. repeat split; vm_compute; reflexivity. Qed.
